@@ -73,6 +73,37 @@ DIRECTIONS = {
         "join=true, restarts that happen twice in a row. Break the property only for histories that include such a restart at a specific "
         "moment (after a specific kind of entry, snapshot, compaction or membership change), so that a cluster that never restarts behaves "
         "as before."),
+    "timing": (
+        "many other engineers already produced changes for this property in the obvious places. To get a DIFFERENT one, look at TIME: "
+        "everything in dragonboat is driven by logical ticks (NodeHost tick worker, LocalTick messages, node.tick, raft election / "
+        "heartbeat / check-quorum / leader-transfer timers, randomized election timeouts, quiesce thresholds and quiesced ticks, request "
+        "deadlines and the gc interval of the pending-request tables, snapshot chunk timeouts and gc ticks in the transport, delayed "
+        "snapshot-status messages in the message queue, in-memory log gc timeouts, rate limiter ticks, the LRU / idle timers). Make ONE "
+        "of these computations subtly wrong in a way a maintainer could plausibly have written: a deadline computed from the wrong "
+        "clock or before the clock was advanced, < versus <= on an expiry, a timer not reset (or reset too often) on a state change, a "
+        "tick that is skipped or counted twice in one state (quiesced, busy snapshotting, transferring leadership, partitioned), a "
+        "threshold derived from the wrong RTT constant. The default happy path must keep working; the property must break only after a "
+        "specific amount of (idle or busy) time, a specific sequence of state changes or a specific relation between two timeouts."),
+    "stmtorder": (
+        "many other engineers already produced changes for this property in the obvious places. To get a DIFFERENT one, look for places "
+        "where the ORDER OF TWO STATEMENTS (or two calls, two messages, two writes, two notifications) inside one function matters and "
+        "swap or regroup them as a plausible tidy-up: state published before it is complete, a notification / wake-up sent before the "
+        "data it announces is stored, a message appended to the outbox before versus after a state change, an index advanced before "
+        "versus after the entry is handed over, a file renamed before it is synced, a cache updated before the write that may fail, a "
+        "flag cleared before the work it protects is done, a deferred call that now runs before instead of after another deferred call, "
+        "a lock released one statement too early. Sequentially both orders look equivalent and the existing tests pass; the property "
+        "must break only when something specific happens between the two statements (another worker runs, a crash, an error return, a "
+        "message arrives) or only for inputs where the first statement changes what the second one sees."),
+    "arith": (
+        "many other engineers already produced changes for this property in the obvious places. To get a DIFFERENT one, look at "
+        "ARITHMETIC and SIZE ACCOUNTING in the code the property is anchored in: uint64 subtraction that can underflow, an off-by-one "
+        "between inclusive and exclusive bounds ([first,last) versus [first,last]), index <-> slice-offset conversions (index - marker, "
+        "index - first), size limits (maxSize / MaxEntrySize / maxEntriesToApplySize / batch size / block size / chunk size / "
+        "MaxInMemLogSize / rate limiter byte counts / SizeUpperLimit) where the accounted size and the real size drift apart, counters "
+        "that are incremented on one path and not decremented on another, quorum / majority arithmetic for even sizes, ticks / terms / "
+        "indexes compared with the wrong one of <, <=, a modulo used for sharding or batching that maps two keys to the same slot. The "
+        "error must stay invisible for the common small values and show only at a boundary value, an exact multiple, an empty or "
+        "maximal range, an even member count, or after a specific sequence that makes the two sides of the accounting diverge."),
 }
 
 PROMPT = """You are a skeptical senior Go engineer doing mutation-style robustness research on the open-source library lni/dragonboat (a multi-group Raft library in Go). Work ONLY inside your own scratch git worktree of the repository at {wt} (create it with: `git -C /repo worktree add {wt} HEAD`). Do NOT modify /repo itself, and do NOT read, list or use anything under /verif (it is off limits for this task). The sandbox is offline; use `export GOFLAGS=-mod=mod GOPROXY=off GOSUMDB=off GOTOOLCHAIN=local` for every go command. Put scratch files under {out}/ only.
